@@ -406,7 +406,63 @@ def wide_bond_oracle(args):
     return None
 
 
+def run_diag_oracle(args):
+    """Observable.results after a real, noise-free simulator.run: bond entropy (and, where asked, the Schmidt spectrum) next to local
+    operators, against the dense final state.  Returns (key suffix, message) or None."""
+    from qiskit import QuantumCircuit
+    from qiskit.quantum_info import Statevector
+
+    from mqt.yaqs import simulator
+    from mqt.yaqs.core.data_structures.networks import MPO, MPS
+    from mqt.yaqs.core.data_structures.simulation_parameters import AnalogSimParams, Observable, StrongSimParams
+
+    L = 3
+    obs = [Observable("entropy", [1, 2]), Observable("z", 0), Observable("x", 2), Observable("entropy", [0, 1])]
+    if args.get("schmidt"):
+        obs.insert(1, Observable("schmidt_spectrum", [0, 1]))
+    if args["kind"] == "analog":
+        H = MPO.ising(L, 1.0, 0.5)
+        p = AnalogSimParams(obs, elapsed_time=0.3, dt=0.1, order=args["order"], sample_timesteps=args["sample"], threshold=1e-13, show_progress=False)
+        st = MPS(L, state="basis", basis_string="100")
+        v = dense.evolve(np.asarray(H.to_matrix()), dense.mps_dense(st), 0.3)
+        op = H
+    else:
+        qc = QuantumCircuit(L)
+        qc.h(0); qc.cx(0, 1); qc.ry(0.7, 2); qc.rxx(0.9, 1, 2)  # noqa: E702
+        p = StrongSimParams(obs, sample_layers=args["sample"], threshold=1e-13, show_progress=False)
+        st = MPS(L)
+        sv = Statevector(qc).data  # bit i = qubit i  ->  site 0 most significant
+        v = sv.reshape([2] * L).transpose(list(range(L))[::-1]).reshape(-1)
+        op = qc
+    try:
+        with common.time_limit(120):
+            simulator.run(st, op, p, None, parallel=False)
+    except Exception as e:  # noqa: BLE001
+        return ("raises" if args.get("schmidt") else "raises-without-schmidt",
+                f"simulator.run ({args['kind']}, order {args.get('order')}, sampling {args['sample']}) with observables {[o.gate.name for o in obs]} raised {type(e).__name__}: {e}")
+    for o in obs:
+        got = np.ravel(np.asarray(o.results))
+        if o.gate.name == "schmidt_spectrum":
+            want = dense_value(v, L, o, "Bond")
+            g = np.sort(np.asarray([x for x in np.ravel(got[-500:] if got.size >= 500 else got) if x == x], dtype=float))[::-1]
+            if len(g) < len(want[want > 1e-9]) or np.max(np.abs(g[: len(want)] - want[: len(g)][: len(want)])) > 1e-6:
+                return ("value", f"Schmidt spectrum of bond {o.sites} after the run is {g[:4]}, dense {want[:4]}")
+            continue
+        want = dense_value(v, L, o, "Bond" if o.gate.name == "entropy" else "Local1")
+        if abs(float(np.real(got[-1])) - float(np.real(want))) > 1e-6:
+            return ("value", f"{o.gate.name} on {o.sites} after a {args['kind']} run (order {args.get('order')}, sampling {args['sample']}) is "
+                    f"{float(np.real(got[-1])):.8f}, dense {float(np.real(want)):.8f}")
+    return None
+
+
 def search(ctx):
+    for a in [dict(kind="analog", order=o, sample=sm, schmidt=sc) for o in (1, 2) for sm in (True, False) for sc in (False, True)] + [
+            dict(kind="strong", sample=sm, schmidt=sc) for sm in (True, False) for sc in (False, True)]:
+        r = run_diag_oracle(a)
+        ctx.case(nontrivial_key=("run-diag", str(a)))
+        ctx.count("run_level_diagnostics")
+        if r:
+            ctx.violation("run-diagnostics:" + r[0], r[1], {"oracle": "run-diag", "args": a})
     for a in (dict(seed=int(ctx.rng.integers(0, 2**31)), d=560, chi=530), dict(seed=int(ctx.rng.integers(0, 2**31)), d=40, chi=33)):
         try:
             why = wide_bond_oracle(a)
@@ -435,6 +491,9 @@ def search(ctx):
 
 def replay(ctx, data):
     rp = data.get("replay", data)
+    if rp.get("oracle") == "run-diag":
+        r = run_diag_oracle(rp["args"])
+        return r[1] if r else None
     if rp.get("oracle") == "frontend":
         spec = [("z", 3), ("x", 0), ("y", 2), ("max_bond", None), ("zz", [2, 3]), ("z", 0), ("x", 1), ("total_bond", None)]
         got = frontend_attribution(rp["kind"], spec, rp["order"], rp["noisy"], rp["parallel"])
